@@ -169,6 +169,19 @@ def check(ctx):
           and allc[0][1][1] == ("a", SELF, "transition_infos"))
     ctx.ob("C19.R2", gel, "posterior_only selects exactly the POSTERIOR epochs of the "
                           "transition infos, otherwise all epochs", ok, stmt="phase selection")
+    if ok:
+        none_ret = [rc for rc, rt_, _ in rg.returns
+                    if rt_ == ("call", ("g", "liesel.option.Option"), (c(None),), ())]
+        is_none = ("call", ("a", post[0], "is_none"), (), ())
+        ok_n = len(none_ret) == 1 and sorted(none_ret[0], key=str) == sorted(
+            [(n("posterior_only"), True), (is_none, True)], key=str)
+        full = [rt_ for rc, rt_, _ in rg.returns if is_call(rt_, "liesel.option.Option")
+                and rt_[2] != (c(None),)]
+        ctx.ob("C19.R2", gel, "the posterior-only log is empty exactly when there are no "
+                              "posterior transition infos; otherwise the assembled log is "
+                              "returned", ok_n and len(full) == 1,
+               detail=str([[pretty(a)[:50] + "=" + str(p_) for a, p_ in rc] for rc in none_ret]),
+               stmt="empty posterior log")
 
     # transition infos are recorded for EVERY transition (not thinned), so that every
     # returned code is counted
